@@ -310,7 +310,11 @@ func c01Run(w *fw.W, idx int) {
 	// Disagreement.  Is it one of the named deviations?
 	for _, qm := range c01QuirkModes {
 		mq := c01RunModel(forms, qm.q)
-		runaway := mq.declined && strings.Contains(mq.why, "recursion deeper") && real.err && strings.Contains(real.rendered, "stack height exceeded")
+		// under the deviation the program recurses without end: the real run dies of a
+		// resource limit and the deviation model gives up (depth or fuel), while the
+		// documented semantics terminate
+		runaway := mq.declined && !strings.Contains(mq.why, "model panic") && real.err &&
+			(strings.Contains(real.rendered, "stack height exceeded") || real.cond == "step-limit-exceeded")
 		if runaway || (!mq.declined && c01Diff(real, mq, opt) == "") {
 			w.Violation("lexical-scope:"+qm.name,
 				"real interpreter deviates from lexical scoping: "+qm.name,
